@@ -1,5 +1,6 @@
 import DFV.JsonField
 import DFV.Model.C18
+import DFV.Model.C18Ext
 namespace DFV.Drv
 open Lean DFV DFV.C18
 
@@ -106,6 +107,54 @@ def c18 (op : String) (j : Json) : Option (R Json) :=
       let axes ← nats j "axes"
       let ks ← ints j "ks"
       pure (Json.mkObj [("ok", m3ToJson (eulerQ intr (axes.zip ks)))])
+  | "rcs" => some do
+      -- plane rotation (p, q) with rational cosine / sine (e.g. 3/5, 4/5)
+      let p ← natOfJson (← fld j "p")
+      let q ← natOfJson (← fld j "q")
+      let c ← ratOfJson (← fld j "c")
+      let s ← ratOfJson (← fld j "s")
+      let Q := Rcs p q c s
+      pure (Json.mkObj [("ok", m3ToJson Q), ("is_rot", .bool (decide Q.IsRot))])
+  | "eulercs" => some do
+      -- from_euler(seq, angles) with angles given by rational (cos, sin); upper case = intrinsic
+      let intr ← boolOfJson (← fld j "intrinsic")
+      let axes ← nats j "axes"
+      let cs ← listOf (listOf ratOfJson) (← fld j "cs")
+      let Q := eulerCS intr (axes.zip (cs.map fun x => (x.getD 0 0, x.getD 1 0)))
+      pure (Json.mkObj [("ok", m3ToJson Q), ("is_rot", .bool (decide Q.IsRot))])
+  | "axisangle" => some do
+      -- from_rotvec(theta * u): rational unit axis u, rational (cos theta, sin theta)
+      let u ← rats j "u"
+      let c ← ratOfJson (← fld j "c")
+      let s ← ratOfJson (← fld j "s")
+      let Q := ofAxisAngle (V3.ofList u) c s
+      pure (Json.mkObj [("ok", m3ToJson Q), ("is_rot", .bool (decide Q.IsRot))])
+  | "pyth" => some do
+      let m ← ratOfJson (← fld j "m")
+      let n ← ratOfJson (← fld j "n")
+      pure (Json.mkObj [("ok", ratsJ [pythC m n, pythS m n])])
+  | "aff_history" => some do
+      -- the history of the SAME field in other units: coordinates s*x + d, values times t
+      let f ← fldOfJson (← fld j "field")
+      let s ← ratOfJson (← fld j "s")
+      let d ← rats j "d"
+      let t ← ratOfJson (← fld j "t")
+      let ops ← listOf c18OpOfJson (← fld j "ops")
+      match init? (affFld s (fun a => d.getD a 0) t f) with
+      | .error e => pure (errJ e)
+      | .ok st => pure (Json.mkObj [("ok", c18History st ops)])
+  | "turns" => some do
+      -- a sequence of C12's Field.rotate90(ax1, ax2, k) calls (about the centre, copying form) and the ordered
+      -- product of their quarter-turn matrices
+      let f ← fldOfJson (← fld j "field")
+      let seq ← listOf (fun t => do
+        let a1 ← strOfJson (← fld t "a1")
+        let a2 ← strOfJson (← fld t "a2")
+        let k ← intOfJson (← fld t "k")
+        pure (a1, a2, k)) (← fld j "seq")
+      match turns f seq with
+      | none => pure (Json.mkObj [("err", .str "refused")])
+      | some g => pure (Json.mkObj [("ok", fldToJson g), ("prod", m3ToJson (prodL (turnsM f seq)))])
   | "argsort" => some do
       -- np.argsort on distinct keys (ordered_idx.argsort())
       let l ← nats j "l"
